@@ -10,45 +10,86 @@ for mp in sorted(glob.glob(os.path.join(V, 'seeded', '*', 'meta.json'))):
     funcs = sorted(set(re.findall(r'^@@.*@@\s+(?:def|class)\s+(\w+)', patch, re.M)))
     need = ' '.join(m.get('needs_to_manifest', '').split())[:170]
     cr = m['check_result']
-    how = cr['caught_by'] + (' (function outside the engine subset: bounded oracle stood in)' if cr.get('function_fell_back_to_bounded_check') else '')
-    rows.append('| `%s` | %s | %s | %s | %s |' % (m['id'], m['breaks_property'], ', '.join(files).replace('mosromgr/', ''), need.replace('|', '/'), how))
+    how = cr['caught_by']
+    fo = cr.get('failed_obligations')
+    if cr.get('function_fell_back_to_bounded_check'):
+        ded = 'tool limit: changed function left the engine subset, bounded check decided'
+    elif fo:
+        ded = '%d obligation(s) fail' % fo
+    else:
+        ded = 'all obligations discharged (bounded check alone)'
+    rows.append('| `%s` | %s | %s | %s | %s | %s |' % (m['id'], m['breaks_property'], ', '.join(files).replace('mosromgr/', ''), need.replace('|', '/'), how, ded))
+nrow = {r: sum(1 for x in rows if x.startswith('| `' + ('C' if r == 1 else 'R%d' % r))) for r in (1, 2, 3)}
 txt = '''## 10. Seeded changes and which checks catch them
 
-40 property-breaking changes were written by ten independent sub-agents, each given only the text of two properties
-and its own scratch worktree (nothing from /verif).  Each was confirmed here by `tools/try_seeded.py`: the patch
-applies to `/repo`, the unedited test suite still passes (196), the demonstration exits 0 without and non-zero with
-the change, the check of the broken property is run, and `/repo` is restored.  They are kept under
-`seeded/<id>/` (patch.diff, demo.py, notes.md, meta.json).  **All 40 are caught** by the quick check of the property
-they break.  First round: 31 caught; the 9 misses and what was strengthened:
+%d property-breaking changes were written by independent sub-agents in three rounds (%d + %d + %d), each agent given
+only the text of a few properties and its own scratch worktree (nothing from /verif).  Round 1 asked for realistic
+single-site slips, round 2 for subtle / cooperating changes (two sites that each look fine, state reached by an
+earlier merge, particular relative positions), round 3 for plain-logic slips in simple code (wrong variable, `<`
+vs `<=`, a check moved after the first mutation, a dropped clause).  Each change is confirmed by
+`tools/try_seeded_par.py` (round 1 first with `tools/try_seeded.py` on `/repo` itself): the patch applies to a
+scratch copy of `/repo`'s HEAD, the unedited test suite still passes there (196), the author's demonstration exits
+0 without and non-zero with the change, and the quick check of the broken property is run against the copy
+(`MOSROMGR_SRC`).  They are kept under `seeded/<id>/` (patch.diff, demo.py, notes.md, check_result.json,
+meta.json); `tools/try_all_seeded.sh` re-runs all of them.  **All %d are caught by the quick check of the property
+they break, each with a failing input replayed on the real code.**  The last column says what the deductive part
+did on its own: obligations that fail on the changed source, or *tool limit* when the change moved the function
+out of the engine's subset (new loop without invariant, `Element.iter`, `dict.fromkeys`, ...) so that the
+bounded real-code check had to decide.
 
-* `C12_2` exposed an *unsound* loop proof: `d[k] = v` was not counted as a modification of `d`, so the dict of
-  `_get_story_offsets` was not havocked and every iteration but the first was vacuous.  Fixed in the engine
-  (subscript stores and `.append` modify their receiver) and guarded by a new strong cover per loop
-  ("the arbitrary iteration is not only the first one", checked with MBQI as well).
-* `C03_1`, `C04_2` (`findtext`-based schema match), `C17_1` (`startswith(tuple)`), `C01_1` (`sorted((a, b))`),
-  `C09_1` (`issubclass`): constructs outside the engine subset made the function a tool limit and the bounded oracle
-  had no scenario for them; the constructs were added to the engine and scenarios to the oracle (metadata blocks
-  without / with blank mosSchema, mixed brackets, roReplace inside collections, ...).
-* `C13_1` (converted story cached on the message object and inserted by reference): per-call contracts cannot see a
-  second merge; added the clause `C13.message_object_holds_no_reference_into_the_running_order` to every merge and a
-  re-use history scenario to the oracle; merge entry objects are now built by the real `MosFile.__init__`.
-* `C10_2`, `C19_2` (S3 branches): `MosCollection.from_s3` and the S3 variants of `CLI.do_merge` were not under
-  contract; added, plus fake-bucket scenarios in the oracle.
-* `C08_1`: all four functions became tool limits and the check stopped with "zero obligations" (exit 3); a run in
-  which every function is a tool limit is now decided by the bounded oracle (level `exploration`).
+What the misses of each round exposed, and what was strengthened:
 
-| id | breaks | file | needs to manifest | caught by |
-|---|---|---|---|---|
+* Round 1 (31 of 40 caught at first).  `C12_2` exposed an *unsound* loop proof: `d[k] = v` was not counted as a
+  modification of `d`, so the dict of `_get_story_offsets` was not havocked and every iteration but the first was
+  vacuous.  Fixed in the engine (subscript stores and `.append` modify their receiver) and guarded by a new strong
+  cover per loop ("the arbitrary iteration is not only the first one", checked with MBQI as well).
+  `C03_1`, `C04_2` (`findtext`-based schema match), `C17_1` (`startswith(tuple)`), `C01_1` (`sorted((a, b))`),
+  `C09_1` (`issubclass`): constructs outside the engine subset made the function a tool limit and the bounded
+  check had no scenario for them; constructs added to the engine, scenarios to the bounded check.
+  `C13_1` (converted story cached on the message object and inserted by reference): per-call contracts cannot see
+  a second merge; added the clause `C13.message_object_holds_no_reference_into_the_running_order` to every merge
+  and re-use histories to the bounded check; merge entry objects are now built by the real `MosFile.__init__`.
+  `C10_2`, `C19_2` (S3 branches): `MosCollection.from_s3` and the S3 variants of `CLI.do_merge` were not under
+  contract; added.  `C08_1`: every function a tool limit gave "zero obligations" (exit 3); such a run is now
+  decided by the bounded check (level `exploration`).
+* Round 2 (16 of 26 caught at first).  All ten misses were tool limits whose stand-in lacked the scenario, plus
+  one structural gap.  `R2A_1` / `R2D_3` (`base_tag` memoised on the object, stale after roReplace): the merge
+  proofs start from a freshly constructed running-order object, so state kept on the object between merges was
+  invisible; added the clause `running_order_object_holds_no_detached_element[field]` to every merge (fails in
+  `RunningOrderReplace.merge`) and same-object histories (accessors read, roReplace applied, then the merge /
+  accessor under test) to the bounded check.  `R2C_4` (`isinstance`-first ordering): `isinstance` on an object
+  known only by its base class is now an uninterpreted fact per (object, class) and the C10 obligation fails
+  deductively.  `R2E_4`/`R2E_5` (`key.lower()`, `bytes.decode`): string methods without a model are now
+  uninterpreted functions, so the listing / download obligations fail instead of the function becoming a tool
+  limit.  `R2E_1` (document-order classification): new clause "the class belongs to a message element that is
+  present" and two-element documents in both orders in the bounded check.  Scenarios added: adjacent items without
+  paragraphs, the *last* story addressed with the same item IDs in an earlier story, IDs living only in other
+  stories, roReplace among sorted `MosFile` objects, nested `<p>`, ISO-8859-1 / UTF-16 S3 objects, upper-case
+  suffixes, a path listed twice.  Five changes were at first caught by the bounded check alone although every
+  obligation was discharged - a sign of a contract that is too weak or attributed to the wrong property:
+  `RunningOrder.__add__` now also serves C14, `RunningOrderReplace.merge` C01/C02, the classification clauses
+  C07 (round trip of a completed running order) and C20, and `MosFile.__str__` has the clause
+  `every_carriage_return_is_written_as_a_character_reference`.
+* Round 3 (23 of 24 caught at first; 15 of them by failed obligations, 9 as tool limits).  The miss, `R3D_1`
+  (`Item.note` taken from the first `studioCommand`), was a tool limit (ElementPath predicate) without a scenario:
+  items with several studioCommands added.  `R3C_4` showed that the read accessors of `MosCollection`
+  (`completed`, `ro`, `mos_readers`, `__str__`) and `completed` of message objects were not under contract: added
+  (`contracts/collection_props.py`).  Scenarios added where the first catch was by obligation only: roReadyToAir
+  after the roDelete in a collection, S3 keys whose byte order is not the message-id order, stories timed by
+  exactly one of TextTime / MediaTime in merges, `MosCollection.completed` before / after / after an aborted merge.
+
+| id | breaks | file | needs to manifest | caught by | deductive part alone |
+|---|---|---|---|---|---|
 %s
 
-Semantics-preserving refactors used as false-alarm tests (`tools/try_refactor.py`, files under
-`/var/tmp/refactors` at build time, reproduced in `selftest/refactors/`): renaming locals of `StoryInsert.merge` and
-`EAStoryMove.merge`, `replace_node` instead of remove+insert in `StorySend.merge`, a conditional expression for the
-index adjustment of `StoryMove.merge`, inverted nesting in `find_child`, swapped branches with `continue` in
-`StoryDelete.merge`, a counted instead of listed roDelete check in `_validate`, separate `if`s in
-`_get_story_duration`: all 8 leave every check at exit 0, and all are still *proved* (no tool limit) after contract
-binding was made name-free (`contracts/roles.py`).
-''' % '\n'.join(rows)
+Semantics-preserving refactors used as false-alarm tests (`tools/try_refactor.py selftest/refactors/r*.py`):
+renaming locals of `StoryInsert.merge` and `EAStoryMove.merge`, `replace_node` instead of remove+insert in
+`StorySend.merge`, a conditional expression for the index adjustment of `StoryMove.merge`, inverted nesting in
+`find_child`, swapped branches with `continue` in `StoryDelete.merge`, a counted instead of listed roDelete check
+in `_validate`, separate `ifs` in `_get_story_duration`, `list(parent).index(node)` instead of the index returned
+by `find_child`, `Element.insert` instead of `insert_node`: all 10 leave every check at exit 0, and all are still
+*proved* (no tool limit) - contract binding is name-free (`contracts/roles.py`).
+''' % (len(rows), nrow[1], nrow[2], nrow[3], len(rows), '\n'.join(rows))
 p = os.path.join(V, 'DESIGN.md')
 s = open(p).read()
 a = s.index('## 10. Seeded changes and which checks catch them')
